@@ -336,5 +336,7 @@ class SBC:
                 continue
             largest_indices = max(dbscan_clusters, key=lambda x: len(x))
             cluster.indices = np.array(cluster.indices)[largest_indices].tolist()
+            # The distance matrix cached above was built for the old indices
+            cluster._distance_matrix_radii_mic = None
             clusters_cleaned.append(cluster)
         return clusters_cleaned
